@@ -126,7 +126,7 @@ def run(ctx):
         # coverage statistics (vacuity guard: every action taken) on the small configuration only - they slow TLC a lot
         if not mc(ctx, "gate-auth-coverage", 1, 1, True, 600, coverage=True):
             return
-        for what, items, xff, auth in (("gate-3items", 3, 1, True), ("gate-xff2", 2, 2, True), ("gate-3items-xff2", 3, 2, False)):
+        for what, items, xff, auth in (("gate-3items", 3, 1, True), ("gate-3items-xff2", 3, 2, False)):
             if not mc(ctx, what, items, xff, auth, 900):
                 return
     else:
